@@ -283,3 +283,137 @@ func vfC17ScenCloseDuringSlowHandler() vfC17ScenResult {
 	}
 	return res
 }
+
+// Session.Close while the control connection's heartbeat goroutine is not parked in its select:
+//
+//	options-in-flight        its OPTIONS probe has been sent, the node withholds the answer;
+//	reconnect-setup-pending  the probe was answered with an error (no connection loss), reconnect() has dialled a new
+//	                         control connection and setupConn's system.local answer is withheld.
+//
+// The node answers once Close has reached controlConn.close().  Close must return (the heartbeat goroutine and Close
+// must not wait for each other), nothing stays open, and the heartbeat goroutine exits.
+func vfC17ScenCloseDuringControlHeartbeat(kind string) func() vfC17ScenResult {
+	return func() vfC17ScenResult {
+		res := vfC17ScenResult{Name: "close-during-control-heartbeat-" + kind}
+		gid := vfC17CurGoroutineID()
+		r, err := vfC17NewRun(1, 2, 1, nil)
+		if err != nil {
+			res.Err = err.Error()
+			return res
+		}
+		s := r.sess
+		type held struct {
+			nc *vfNodeConn
+			f  *vfFrame
+			q  *vfRequest
+		}
+		var mu sync.Mutex
+		var holds []held
+		var armed, nProbe int32 = 1, 0
+		release := func() {
+			atomic.StoreInt32(&armed, 0)
+			mu.Lock()
+			hs := holds
+			holds = nil
+			mu.Unlock()
+			for _, h := range hs {
+				h.nc.Node.defaultHandle(h.nc, h.f, h.q)
+			}
+		}
+		for _, n := range r.nodes {
+			n.Handler = func(nc *vfNodeConn, f *vfFrame, q *vfRequest) bool {
+				if atomic.LoadInt32(&armed) == 0 {
+					return false
+				}
+				registered := len(nc.Registered) > 0
+				switch {
+				case f.Op == vfOpOptions && registered:
+					// a probe on the control connection (the connection-level heartbeat uses the same frame)
+					if kind == "options-in-flight" {
+						mu.Lock()
+						holds = append(holds, held{nc, f, q})
+						mu.Unlock()
+						atomic.AddInt32(&nProbe, 1)
+						return true
+					}
+					atomic.AddInt32(&nProbe, 1)
+					nc.Reply(f, vfOpError, vfErrorBody(0x1001, "vf: overloaded", nil))
+					return true
+				case kind == "reconnect-setup-pending" && !registered && f.Op == vfOpQuery && atomic.LoadInt32(&nProbe) > 0 &&
+					strings.Contains(strings.ToLower(q.Stmt), "system.local"):
+					mu.Lock()
+					holds = append(holds, held{nc, f, q})
+					mu.Unlock()
+					return true
+				}
+				return false
+			}
+		}
+		defer release()
+		nHeld := func() int { mu.Lock(); defer mu.Unlock(); return len(holds) }
+		// the heartbeat's first probe comes one second after the control connection was set up
+		if !vfC17Poll(vfC17DeadlineD(), func() bool { return nHeld() > 0 }) {
+			res.Err = "the control heartbeat did not get into the withheld round trip"
+			release()
+			s.Close()
+			return res
+		}
+		done := vfC17Go(s.Close)
+		// Close has reached controlConn.close(): the state is `closing` (or Close is through already)
+		vfC17Poll(vfC17DeadlineD(), func() bool {
+			select {
+			case <-done:
+				return true
+			default:
+			}
+			return atomic.LoadInt32(&s.control.state) == controlConnClosing
+		})
+		time.Sleep(2 * time.Millisecond)
+		release()
+		if ok, dump := res.waitCh(done, vfC17CloseFinder(s)); !ok {
+			res.Obs = "Close hung"
+			res.Viol = "session-close-hang:" + vfC17HangSig(dump, s) + "-during-heartbeat-" + kind
+			res.What = "Session.Close did not return when it was called while the control connection's heartbeat goroutine was busy (" + kind +
+				"): Close waits for the heartbeat goroutine, the heartbeat goroutine waits for something Close holds"
+			res.Detail = vfC17CloseFinder(s)(dump) + "\n\n" + vfC17FindGoroutine("controlConn).heartBeat")(dump)
+			return res
+		}
+		res.settle(func() bool { return len(r.openConns()) == 0 }, r.actN, r.busy)
+		open := r.openConns()
+		// the heartbeat goroutine of this session (and anything else the driver started since) is gone
+		mine := func() []string {
+			var out []string
+			for _, g := range vfC17DriverGoroutines() {
+				// this session's heartbeat goroutine was started by NewSession on this scenario's own goroutine (the receiver
+				// pointer printed in a frame is not reliable enough to tell sessions apart)
+				if vfC17EntryFunc(g) == "controlConn.heartBeat" && strings.Contains(g+"\n", " in goroutine "+gid+"\n") {
+					out = append(out, g)
+				}
+			}
+			return out
+		}
+		var gs []string
+		res.settle(func() bool { gs = mine(); return len(gs) == 0 }, func() int64 {
+			var h int64
+			for _, g := range mine() {
+				for _, c := range vfC17GoroutineID(g) {
+					h = h*131 + int64(c)
+				}
+			}
+			return h
+		}, nil)
+		res.Obs = fmt.Sprintf("Close returned; open connections %v; heartbeat goroutines of the session left: %d", open, len(gs))
+		switch {
+		case res.Unsure != "":
+		case len(gs) > 0:
+			res.Viol = "goroutine-leak-after-close:controlConn.heartBeat-busy-at-close"
+			res.What = "the control connection's heartbeat goroutine was still running long after Session.Close returned: Close arrived while it " +
+				"was busy (" + kind + ") and its stop signal was lost"
+			res.Detail = gs[0]
+		case len(open) > 0:
+			res.Viol = "conn-leak-after-close:close-during-control-heartbeat"
+			res.What = "connections stayed open after Session.Close called during a control heartbeat round trip"
+		}
+		return res
+	}
+}
